@@ -98,9 +98,20 @@ func rcGen(r *rng.R, id int, o rcOpts) *rcCase {
 	rec := ch(20, o.Recursive)
 	fallibleLeaf := ch(25, o.Customs)
 	leafS, leafT := "string", "string"
+	leafCtx := false
 	if fallibleLeaf {
 		leafT = "int"
-		cu.WriteString(fmt.Sprintf("func %sAtoi(s string) (int, error) { return 0, nil }\n\n", p))
+		leafCtx = ch(20, o.Recursive/2)
+		if leafCtx {
+			// the leaf function needs a context: every method on the way has to pass it on (also helpers built before it was known)
+			if r.Bool() {
+				cu.WriteString(fmt.Sprintf("// goverter:context tag\nfunc %sAtoi(s string, tag string) (int, error) { return 0, nil }\n\n", p))
+			} else {
+				cu.WriteString(fmt.Sprintf("// goverter:context tag\nfunc %sAtoi(s string, tag string) int { return 0 }\n\n", p))
+			}
+		} else {
+			cu.WriteString(fmt.Sprintf("func %sAtoi(s string) (int, error) { return 0, nil }\n\n", p))
+		}
 		extend = append(extend, p+"Atoi")
 	}
 	recS, recT := "", ""
@@ -277,6 +288,9 @@ func rcGen(r *rng.R, id int, o rcOpts) *rcCase {
 	// the converter
 	var b strings.Builder
 	b.WriteString("// goverter:converter\n")
+	if r.Chance(12) {
+		b.WriteString("// goverter:output:format function\n")
+	}
 	for _, e := range extend {
 		b.WriteString("// goverter:extend " + e + "\n")
 	}
@@ -307,7 +321,7 @@ func rcGen(r *rng.R, id int, o rcOpts) *rcCase {
 	b.WriteString("type " + c.Name + " interface {\n")
 	ctxParam := ""
 	ctxDoc := ""
-	if withKA && kaCtx && r.Chance(80) {
+	if (withKA && kaCtx && r.Chance(80)) || (leafCtx && r.Chance(92)) {
 		ctxParam, ctxDoc = ", tag string", "\t// goverter:context tag\n"
 	}
 	retErr := fallibleLeaf || (withKA && kaFallible) || r.Chance(15)
@@ -378,6 +392,15 @@ func rcGen(r *rng.R, id int, o rcOpts) *rcCase {
 	sTop, tTop := p+"S", p+"T"
 	if ptrTop {
 		sTop, tTop = "*"+sTop, "*"+tTop
+		// pointer depth beyond one on either side (field settings belong to methods over structs or pointers to structs)
+		switch r.Intn(10) {
+		case 0:
+			tTop = "*" + tTop
+		case 1:
+			sTop = "*" + sTop
+		case 2:
+			sTop, tTop = "*"+sTop, "*"+tTop
+		}
 	}
 	// sibling names: the one with method-level settings sorts before or after the plain one
 	nameA, nameB := "Alpha", "Beta"
@@ -410,6 +433,52 @@ func rcGen(r *rng.R, id int, o rcOpts) *rcCase {
 			b.WriteString(ctxDoc)
 		}
 		writeMethod("Inner", "(source "+inA+ctxParam+") "+res(inB), rcFlags(r, 8, false))
+	}
+	if withKA && !kaSelf && r.Chance(35) {
+		// an explicit method with exactly the signature of the extend function: it delegates to it
+		sig := "(source " + p + "KA"
+		if kaCtx {
+			sig += ", tag string"
+			b.WriteString("\t// goverter:context tag\n")
+		}
+		sig += ") "
+		if kaFallible {
+			sig += "(" + p + "KB, error)"
+		} else {
+			sig += p + "KB"
+		}
+		writeMethod("Kdirect", sig, nil)
+	}
+	if ch(15, o.Enums) {
+		// the enum pair as a method of its own: enum:map / enum:unknown written on it apply here (and only here)
+		lines := rcFlags(r, 6, false)
+		if r.Chance(60) {
+			lines = append(lines, "enum:unknown "+rng.Pick(r, []string{p + "ColGreen", p + "ColRed", "@ignore", "@panic"}))
+		}
+		if r.Chance(60) {
+			lines = append(lines, "enum:map "+p+rng.Pick(r, []string{"ColGreen", "ColRed", "ColBlue"})+" "+rng.Pick(r, []string{p + "ColRed", p + "ColGreen", "@ignore", p + "Nope"}))
+		}
+		if r.Chance(25) {
+			lines = append(lines, "enum:transform regex "+p+"Col(Gr|Bl).* "+p+"ColRed")
+		}
+		writeMethod("Colour", "(source "+p+"Col) "+res("q."+p+"ColT"), lines)
+	}
+	if ch(12, o.Default) {
+		// a method whose pointer side is an ANONYMOUS struct: the default constructor and default:update apply to it like to a named one
+		ty.WriteString(fmt.Sprintf("type %[1]sAn struct {\n\tV string\n\tW int\n\tOrigin string\n}\n", p))
+		cu.WriteString(fmt.Sprintf("func %[1]sNewAn() %[1]sAn { return %[1]sAn{} }\nfunc %[1]sNewAnP() *struct{ V string; W int; Origin string } { return nil }\n\n", p))
+		lines := []string{"ignoreMissing"}
+		if r.Bool() {
+			lines = append(lines, "default:update")
+		}
+		if r.Bool() {
+			lines = append(lines, "useZeroValueOnPointerInconsistency")
+		}
+		if r.Bool() {
+			writeMethod("AnonIn", "(source *struct{ V string; W int }) "+res(p+"An"), append(lines, "default "+p+"NewAn"))
+		} else {
+			writeMethod("AnonOut", "(source "+p+"An) "+res("*struct{ V string; W int; Origin string }"), append(lines, "default "+p+"NewAnP"))
+		}
 	}
 	if ch(25, o.Update) {
 		src := p + "S"
@@ -494,7 +563,7 @@ func runRandK1Opt(e *env, tag string, n, perBatch int, o rcOpts, compile bool) e
 		imp := "import (\n\t\"time\"\n\n\t\"" + module + "/q\"\n)\n\nvar _ time.Duration\nvar _ q.Anchor\n\n"
 		tree := scratch.Tree{"go.mod": "module " + module + "\n\ngo 1.18\n",
 			"p/types.go":  "package p\n\n" + imp + ty.String(),
-			"p/conv.go":   "package p\n\n" + cv.String(),
+			"p/conv.go":   "package p\n\nimport \"" + module + "/q\"\n\nvar _ q.Anchor\n\n" + cv.String(),
 			"p/custom.go": "package p\n\n" + cu.String(),
 			"q/q.go":      "package q\n\ntype Anchor struct{}\n\n" + q.String()}
 		for k, v := range k2.SupportFiles(module) {
@@ -621,6 +690,21 @@ func runRandK1Opt(e *env, tag string, n, perBatch int, o rcOpts, compile bool) e
 				"impl_error": lastN(implErr, 900), "broken": "correspondence " + e.prop + " (compositional cases): Gv.Gen.generate vs generator.Generate"}, false)
 			continue
 		}
+		if it.oc.Stage == "ok" {
+			if sh, err := gvx.ShapeOf(it.oc.Files); err == nil {
+				for _, d := range sh.Decls {
+					if !(strings.HasPrefix(d, "func:") || strings.HasPrefix(d, "method:") || strings.HasPrefix(d, "type-emptystruct:")) {
+						e.rep.Violation("", map[string]any{"converter_source": src, "declaration": d,
+							"broken": e.prop + " (compositional cases): the emitted file declares something else than the converter struct, its methods / functions and init()"}, false)
+					}
+				}
+				for _, im := range sh.Imports {
+					if im == "reflect" {
+						e.rep.Violation("", map[string]any{"converter_source": src, "import": im, "broken": e.prop + " (compositional cases): the emitted file imports reflect"}, false)
+					}
+				}
+			}
+		}
 		if sr := gvx.SymOf(a); sr != nil {
 			sym.equal += sr.Equal
 			sym.unliftable += len(sr.Unliftable)
@@ -649,11 +733,12 @@ var randEmphasis = map[string]rcOpts{
 	"C05": {FieldLines: 45},
 	"C06": {Customs: 45, FieldLines: 20},
 	"C07": {Customs: 45, Siblings: 40, Recursive: 20},
-	"C08": {Enums: 40, Siblings: 40},
-	"C10": {Update: 60, FieldLines: 20},
+	"C08": {Enums: 60, Siblings: 40},
+	"C10": {Update: 60, FieldLines: 20, Pointers: 35},
 	"C11": {Pointers: 45, Default: 30, Siblings: 30},
 	"C12": {Siblings: 50},
 	"C18": {Customs: 30},
+	"C13": {Recursive: 60, Customs: 40},
 }
 
 func runRandFor(e *env) error {
